@@ -657,6 +657,8 @@ def contains(eng, st, container, item):
         return z3.Contains(container.e, item.e)
     if isinstance(container, VBytes) and isinstance(item, VBytes):
         return z3.Contains(container.e, item.e)
+    if isinstance(container, VSeq) and container.elem.head in ("int", "enum"):
+        return z3.Contains(container.e, z3.Unit(as_int(item)))
     if isinstance(container, VTuple) or (o is not None and o.kind in ("list", "cset")):
         items = eng.iter_concrete(container, st)
         return simp(z3.Or(*[values_equal(eng.devalue(item, st), eng.devalue(x, st)) for x in items])) if items else z3.BoolVal(False)
@@ -694,6 +696,8 @@ def elem_sort(eng, ty: Ty):
         return BytesS
     if h == "obj":
         return ObjS
+    if h == "enum":
+        return IntS
     if h == "tuple":
         key = repr(ty)
         if key not in _dt_cache:
@@ -720,6 +724,8 @@ def decode_elem(eng, st, e, ty: Ty) -> V:
         return VBytes(e)
     if h == "obj":
         return VObj(e, ty.args[0].head if ty.args else None)
+    if h == "enum":
+        return VEnum(eng.resolve_class(ty.args[0].head), e)
     if h == "tuple":
         srt = elem_sort(eng, ty)
         return VTuple([decode_elem(eng, st, srt.accessor(0, i)(e), a) for i, a in enumerate(ty.args)])
@@ -733,6 +739,10 @@ def encode_elem(eng, st, v: V, ty: Ty):
     if h in ("int", "bool", "real", "str", "bytes", "obj"):
         if h == "int":
             return as_int(v)
+        return v.e
+    if h == "enum":
+        if not (isinstance(v, VEnum) and v.cls is eng.resolve_class(ty.args[0].head)):
+            raise Unsupported(f"value {v} stored where a member of {ty.args[0].head} is required")
         return v.e
     if h == "tuple":
         srt = elem_sort(eng, ty)
